@@ -51,25 +51,29 @@ var extFactories = map[string]func(raw json.RawMessage) (Ext, error){}
 // RegisterExt registers an extension factory under a scenario key.
 func RegisterExt(key string, f func(raw json.RawMessage) (Ext, error)) { extFactories[key] = f }
 
-func (w *run) initExts() bool {
-	keys := make([]string, 0, len(w.sc.Ext))
-	for k := range w.sc.Ext {
+func (s *Scenario) buildExts() error {
+	s.exts = nil
+	keys := make([]string, 0, len(s.Ext))
+	for k := range s.Ext {
 		keys = append(keys, k)
 	}
 	sort.Strings(keys)
 	for _, k := range keys {
 		f := extFactories[k]
 		if f == nil {
-			w.e.Violate("harness", "unknown extension %q", k)
-			return false
+			return fmt.Errorf("unknown extension %q", k)
 		}
-		x, err := f(w.sc.Ext[k])
+		x, err := f(s.Ext[k])
 		if err != nil {
-			w.e.Violate("harness", "extension %q: %v", k, err)
-			return false
+			return fmt.Errorf("extension %q: %v", k, err)
 		}
-		w.exts = append(w.exts, x)
+		s.exts = append(s.exts, x)
 	}
+	return nil
+}
+
+func (w *run) initExts() bool {
+	w.exts = w.sc.exts
 	return true
 }
 
